@@ -6,7 +6,7 @@ CONSTANTS
   RKeys = {"k1"}
   RPass = {"p1"}
   MaxHist = 0
-  MaxConns = 3
+  MaxConns = 2
   MaxCItems = 2
   MaxLines = 0
 INVARIANT CTypeOK Inv_Conn
